@@ -357,6 +357,14 @@ def check_order(ctx: Context, rep, rule: str) -> None:
     from sa.rules.common import reaches
     HASH = f"{UTILS}:hash_checksums"
     sc = ctx.fn("sedpack.io.shard.shard:Shard.close")
+    # a shard that reaches a list carries its digests: closing a shard
+    # computes them (call graph: Shard.close reaches hash_checksums), so the
+    # list written at the next roll-over never names a shard without them
+    rep.ob(rule, HASH in ctx.cg.reachable([sc.fq]), loc=sc.loc(),
+           where=sc.qualname, construct="Shard.close -> ... -> hash_checksums",
+           message="closing a shard no longer computes its digests: a shard "
+           "enters the (progress) list before it was hashed, a crash or a "
+           "reader in between sees a listed shard without checksums")
 
     def hashes(n: Node, fn=sc) -> bool:
         return n.kind == "call" and reaches(ctx, fn, n.ast, HASH)
